@@ -172,10 +172,10 @@ def classify(desc):
     return d
 
 
-def run_units(prop, tier, units, rule, assumptions, level_expl='', replay_dir=None, filter_desc=None):
+def run_units(prop, tier, units, rule, assumptions, level_expl='', replay_dir=None, filter_desc=None, rep=None, finish=True):
     """build, validate, solve, replay, report.  returns exit code"""
-    rep = Report(prop, tier)
-    rep.assumptions = list(assumptions)
+    rep = rep or Report(prop, tier)
+    rep.assumptions += [a for a in assumptions if a not in rep.assumptions]
     rng = random.Random(SEED)
     replay_dir = replay_dir or os.path.join(os.environ.get('VERIF_REPLAY_DIR') or os.path.join(VERIF, 'replay'), prop)
     os.makedirs(replay_dir, exist_ok=True)
@@ -244,5 +244,7 @@ def run_units(prop, tier, units, rule, assumptions, level_expl='', replay_dir=No
                 else:
                     rep.inconc(r['hid'], 'counterexample for "%s" did not reproduce natively (encoder or harness problem): %s' % (k, rfile))
     rep.extra['replays'] = nreplay
-    rep.samples = [dict(obligation=o['hid'], bounds=o['bounds'], verdict=o['status']) for o in rep.obligations[:8]]
+    rep.samples += [dict(obligation=o['hid'], bounds=o['bounds'], verdict=o['status']) for o in rep.obligations[:8]]
+    if not finish:
+        return rep
     return rep.finish(rule, level_expl)
